@@ -122,7 +122,8 @@ ASSUMPTIONS = [
 
 FAMILIES = ("dict", "ctx", "choice-dict", "fs", "choice-fs")
 FS_FAMILIES = ("fs", "choice-fs")
-LOOP_FAMILIES = ("fs", "choice-fs", "fs-multi", "ns-fs", "p-fs")  # async needs a real event loop
+LOOP_FAMILIES = ("fs", "choice-fs", "fs-multi", "ns-fs", "p-fs", "tag-fs")
+T_FAMILIES = ("tag-dict", "tag-fs")  # async needs a real event loop
 NS_FAMILIES = ("ns-dict", "ns-choice", "ns-fs")
 P_FAMILIES = ("p-dict", "p-ctx", "p-choice", "p-fs")
 ENV_WHO = "envwho"  # environment-level global with the SAME name as the per-load global
@@ -234,6 +235,34 @@ def _build_classes() -> Any:
         NsAware.__name__ = "NsAware" + base.__name__
         return NsAware
 
+    def tag_routed(base):  # noqa: ANN001, ANN202
+        """The 'Load context' customisation of docs/loading_templates.md
+        (SnippetsFileSystemLoader): `include` / `render` targets are served from
+        snippets/, and — same idea with a user keyword argument — variant='alt' from alt/."""
+
+        def routed(template_name, kwargs):  # noqa: ANN001, ANN202
+            if kwargs.get("tag") in ("include", "render"):
+                return f"snippets/{template_name}"
+            if kwargs.get("variant"):
+                return f"{kwargs['variant']}/{template_name}"
+            return template_name
+
+        class TagRouted(base):
+            def get_source(self, env, template_name, *, context=None, **kwargs):  # noqa: ANN001, ANN003, ANN201
+                return super().get_source(
+                    env, routed(template_name, kwargs), context=context, **kwargs
+                )
+
+        if base.get_source_async is not BaseLoader.get_source_async:
+            async def get_source_async(self, env, template_name, *, context=None, **kwargs):  # noqa: ANN001, ANN003, ANN202
+                return await super(TagRouted, self).get_source_async(
+                    env, routed(template_name, kwargs), context=context, **kwargs
+                )
+
+            TagRouted.get_source_async = get_source_async  # type: ignore[method-assign]
+        TagRouted.__name__ = "TagRouted" + base.__name__
+        return TagRouted
+
     class GatedDictLoader(DictLoader):
         """get_source_async suspends once (scheduler decides who continues)."""
 
@@ -275,6 +304,10 @@ def _build_classes() -> Any:
     k.FaultyNsAwareDict = faulty(ns_aware(CachingDictLoader))
     k.FaultyNsAwareChoice = faulty(ns_aware(CachingChoiceLoader))
     k.FaultyNsAwareFs = faulty(ns_aware(CachingFileSystemLoader))
+    k.TagRoutedDict = tag_routed(DictLoader)
+    k.TagRoutedFs = tag_routed(FileSystemLoader)
+    k.FaultyTagRoutedDict = faulty(tag_routed(CachingDictLoader))
+    k.FaultyTagRoutedFs = faulty(tag_routed(CachingFileSystemLoader))
     k.CachingGatedDictLoader = CachingGatedDictLoader
     k.ThreadSafeCachingDictLoader = ThreadSafeCachingDictLoader
     k.LRUCache = LRUCache
@@ -295,6 +328,7 @@ class Store:
     names: tuple[str, ...] = NAMES
     ns_values: tuple[object, ...] = NAMESPACES
     typed_ns = False  # True: namespace identity is the typed value, not its str()
+    routed = False  # True: the source depends on the load context (tag / variant keyword)
 
     def __init__(self) -> None:
         self.armed: str | None = None
@@ -485,6 +519,8 @@ class _Files:
 
     def write(self, path: str, text: str, mkind: int = 0, rename: int = 0) -> None:
         t = self._pick(path, mkind)
+        if path not in self.stamps:
+            os.makedirs(os.path.dirname(path), exist_ok=True)
         if rename:
             tmp = os.path.join(os.path.dirname(os.path.dirname(path)),
                                ".incoming-" + os.path.basename(path))
@@ -763,6 +799,46 @@ class NsFsStore(Store):
         return e.stamp is not None and self.files.stamps.get(e.origin) == e.stamp
 
 
+class _TagSources:
+    """Mixin: foo / bar exist at top level, under snippets/ and under alt/, each with its
+    own body (the marker's place says which one was served)."""
+
+    names = ref.T_NAMES
+    routed = True
+
+    def body(self, place: str, name: str, version: int) -> str:  # noqa: ARG002
+        parts = name.split("/")
+        return ref.body(parts[0] if len(parts) > 1 else "top", parts[-1], version,
+                        self.with_site)  # type: ignore[attr-defined]
+
+
+class TagDictStore(_TagSources, DictStore):
+    family = "tag-dict"
+
+    def __init__(self) -> None:
+        super().__init__()
+        self.twin = K().TagRoutedDict(self.t)
+
+    def make_loader(self, cap: int, auto: bool, nskey: str) -> Any:
+        ld = K().FaultyTagRoutedDict(self.t, auto_reload=auto, namespace_key=nskey, capacity=cap)
+        ld.vf_store = self
+        return ld
+
+
+class TagFsStore(_TagSources, FsStore):
+    family = "tag-fs"
+    subdir = "tagfs"
+
+    def __init__(self, root: str) -> None:
+        super().__init__(root)
+        self.twin = K().TagRoutedFs(self.dir)
+
+    def make_loader(self, cap: int, auto: bool, nskey: str) -> Any:
+        ld = K().FaultyTagRoutedFs(self.dir, auto_reload=auto, namespace_key=nskey, capacity=cap)
+        ld.vf_store = self
+        return ld
+
+
 class _PartialSources:
     """Mixin: the templates of the partial-loading families (c14_lru.p_source)."""
 
@@ -810,7 +886,7 @@ class InlineExecutor(concurrent.futures.ThreadPoolExecutor):
 def cfg_id(cfg: dict[str, Any]) -> str:
     s = f"{cfg['family']}/cap{cfg['cap']}/auto-{'on' if cfg['auto'] else 'off'}"
     if cfg.get("nskey", "ns") != "ns":
-        s += "/no-namespace-key"
+        s += f"/namespace-key={cfg['nskey']}" if cfg["nskey"] else "/no-namespace-key"
     if cfg.get("site"):
         s += "/env-globals" + ("-same-name" if cfg["site"] == 2 else "")
     if cfg.get("inject", INJECT_KINDS[0]) != INJECT_KINDS[0]:
@@ -851,6 +927,7 @@ class Harness:
         eg: dict[int, dict[str, object] | None] = {
             0: None, 1: {"site": "S"}, 2: {"site": "S", "who": ENV_WHO}}
         self.envs = {i: k.Environment(globals=g) for i, g in eg.items()}
+        self.envs_b = {i: k.Environment(globals=g) for i, g in eg.items()}  # shares the loader
         self.twin_envs = {i: k.Environment(globals=g) for i, g in eg.items()}
         self.stores: dict[str, Store] = {}
         self.loop: asyncio.AbstractEventLoop | None = None
@@ -899,6 +976,10 @@ class Harness:
                 st = NsChoiceStore()
             elif family == "ns-fs":
                 st = NsFsStore(self.root)
+            elif family == "tag-dict":
+                st = TagDictStore()
+            elif family == "tag-fs":
+                st = TagFsStore(self.root)
             elif family == "p-dict":
                 st = PDictStore()
             elif family == "p-ctx":
@@ -920,11 +1001,11 @@ class Harness:
                 self.loop.set_default_executor(InlineExecutor())  # type: ignore[arg-type]
         return self.loop
 
-    def render_context(self, site: int, has_ns: bool, ns: object) -> Any:
-        ck = (site, ref.ns_tag(ns) if has_ns else "")
+    def render_context(self, site: int, has_ns: bool, ns: object, second: int = 0) -> Any:
+        ck = (site + 10 * second, ref.ns_tag(ns) if has_ns else "")
         rc = self._rc.get(ck)
         if rc is None:
-            env = self.envs[site]
+            env = self.envs_b[site] if second else self.envs[site]
             rc = K().RenderContext(
                 env.from_string(""), global_data={"ns": ns} if has_ns else {}
             )
@@ -984,9 +1065,11 @@ class Harness:
         inject = cfg.get("inject", INJECT_KINDS[0])
         st = self.store(family)
         st.reset()
-        env = self.envs[site_i]
+        env_a = self.envs[site_i]
+        env_b = self.envs_b[site_i]
         loader = st.make_loader(cap, auto, nskey)
-        env.loader = loader
+        env_a.loader = loader
+        env_b.loader = loader
         model = ref.RefLRU(cap)
         self.last_loader, self.last_model = loader, model
         twin = st.twin
@@ -1006,6 +1089,7 @@ class Harness:
                     trace.append(f"  step {i}: {ref.show_op(op, family)}")
                 continue
             name = st.names[op.name]
+            env = env_b if op.env else env_a
             has_ns = op.ns != 0
             ns: Any = st.ns_values[op.ns - 1] if has_ns else None
             # who wins: render argument > this load's template globals > environment globals
@@ -1024,17 +1108,20 @@ class Harness:
                 pglobals = dict(g or {})
                 if has_ns:
                     pglobals["ns"] = ns
-                tkw: dict[str, Any] = {"context": self.render_context(site_i, has_ns, ns),
-                                       "tag": partial_tag}
+                tkw: dict[str, Any] = {
+                    "context": self.render_context(site_i, has_ns, ns, op.env),
+                    "tag": partial_tag}
             else:
-                if has_ns:
+                if op.via == 5:
+                    kw["variant"] = "alt"  # a user keyword argument a custom loader routes on
+                elif has_ns:
                     if op.via == 1:
-                        kw["context"] = self.render_context(site_i, True, ns)
+                        kw["context"] = self.render_context(site_i, True, ns, op.env)
                     else:
                         kw["ns"] = ns
                         if op.via == 4:
                             kw["context"] = self.render_context(
-                                site_i, True, ref.other_ns(family, op.ns))
+                                site_i, True, ref.other_ns(family, op.ns), op.env)
                 tkw = kw
             # what the uncached twin returns at this moment (no injected fault)
             try:
@@ -1046,12 +1133,15 @@ class Harness:
                 key = f"{ref.ns_tag(ns)}|{name}" if st.typed_ns else f"{ns}/{name}"
             else:
                 key = name
+            if st.routed:
+                # the source depends on the load context: so does the identity of the entry
+                key = f"{ref.t_route(op.via)}|{name}"
             armed = st.armed
             ent_before = model.get(key)
             was_resident = ent_before is not None
             alts = ref.expect_load(
                 model, key, now, step=i, auto_reload=auto, has_fresh=st.has_fresh,
-                is_fresh=st.is_fresh, armed=armed,
+                is_fresh=st.is_fresh, armed=armed, env_tag=op.env,
             )
             if self.full_twin and record and now[0] == "ok":
                 tenv = self.twin_envs[site_i]
@@ -1115,7 +1205,7 @@ class Harness:
                         else "reload_older_mtime" if cur < ent_before.stamp  # type: ignore[operator]
                         else "reload_newer_mtime"
                     )
-            if diag and matched.outcome[0] == "ok" and not st.typed_ns:
+            if diag and matched.outcome[0] == "ok" and not st.typed_ns and not st.routed:
                 # after a successful load its key must be resident; if it is not, but a
                 # key differing only by the namespace prefix is, the key was derived wrongly
                 rk = {str(x) for x in loader.cache.keys()}
@@ -1298,6 +1388,9 @@ class Harness:
         ]
         own = model.last.get(key)
         own_matches = own is not None and marker(own.source) == obs_marker
+        if ref.is_t_family(fam) and po[0] != pe[0]:
+            return ("load-context-collision",
+                    what + " (the source chosen for another load context was served)")
         if (fam == "ctx" or ref.is_ns_family(fam)) and po[0] != pe[0]:
             return ("namespace-leak", what + " (content selected for another namespace)")
         if own_matches:
@@ -1381,13 +1474,23 @@ class Harness:
             if self.run_history(cfg, twin, record=False) is None:
                 return f"async-path-only:{base}:" + forms(lambda o: bool(o.mode))
         fam = cfg["family"]
+        # a minimal history needs every one of its steps: if two of its loads have the same
+        # cache key although their identities differ, that coincidence is the mechanism,
+        # whatever the symptom (it may also act silently: replace or keep alive an entry)
+        if ref.is_t_family(fam):
+            for jb in range(len(small) - 1, 0, -1):
+                for ja in range(jb - 1, -1, -1):
+                    coll = ref.context_collision(small[ja], small[jb], fam, cfg.get("nskey", "ns"))
+                    if coll is not None:
+                        return f"load-context-collision:{coll}"
+            return f"{cat}:{ref.pattern(ref.sort_commuting(small), cat, fam)}"
         if ref.is_ns_family(fam):
-            if len(small) == 2 and len(loads) == 2:
-                coll = ref.engine_key_collision(small[0], small[1], fam)
-                if coll is not None:
-                    # two different (namespace, name) identities whose '<ns>/<name>' strings
-                    # coincide; one key per kind of coincidence, whatever the values
-                    return f"namespace-key-collision:{coll}"
+            for jb in range(len(small) - 1, 0, -1):
+                for ja in range(jb - 1, -1, -1):
+                    if small[ja].kind == "load" and small[jb].kind == "load":
+                        coll = ref.engine_key_collision(small[ja], small[jb], fam)
+                        if coll is not None:
+                            return f"namespace-key-collision:{coll}"
             return f"{cat}:{ref.pattern(ref.sort_commuting(small), cat, fam)}"
         if any(o.ns for o in loads):
             twin = [o._replace(ns=0, via=0) if o.kind == "load" else o for o in small]
@@ -1443,6 +1546,21 @@ class Harness:
                 if pair == hist or self.fails(cfg, pair) == cat or self.fails(cfg, without) != cat:
                     key, small = f"namespace-key-collision:{coll}", pair
                     ctx.count("violations_named_as_key_collision")
+        if ref.is_t_family(fam) and not self.diag:
+            last = hist[-1]
+            nsk = cfg.get("nskey", "ns")
+            colliders = [
+                j for j in range(len(hist) - 1)
+                if ref.context_collision(hist[j], last, fam, nsk) is not None
+            ]
+            if colliders:
+                j = colliders[-1]
+                coll = ref.context_collision(hist[j], last, fam, nsk)
+                pair = [hist[j]._replace(g=0, mode=0, env=0), last._replace(g=0, mode=0, env=0)]
+                without = [o for i2, o in enumerate(hist) if i2 not in colliders]
+                if pair == hist or self.fails(cfg, pair) == cat or self.fails(cfg, without) != cat:
+                    key, small = f"load-context-collision:{coll}", pair
+                    ctx.count("violations_named_as_context_collision")
         for pat, k in ([] if key is not None else known):
             embs = list(ref.embeddings(pat, hist, exact=ref.concrete_names(cfg["family"])))
             if not embs:
@@ -1638,6 +1756,26 @@ def partials_expected(tier: str) -> int:
     return n
 
 
+TAGROUTE_LEN = 3
+
+
+def tagroute_configs() -> list[dict[str, Any]]:
+    """The documented tag-routing subclass over CachingFileSystemLoader and a dict-based
+    equivalent, without a namespace key and with namespace_key='variant' (then the user
+    keyword the loader routes on is part of the cache key)."""
+    return [
+        {"family": "tag-fs", "cap": 2, "auto": True, "nskey": ""},
+        {"family": "tag-fs", "cap": 1, "auto": False, "nskey": "variant"},
+        {"family": "tag-dict", "cap": 2, "auto": True, "nskey": ""},
+        {"family": "tag-dict", "cap": 3, "auto": True, "nskey": "variant"},
+    ]
+
+
+def tagroute_expected() -> int:
+    return len(tagroute_configs()) * sum(
+        1 for ln in range(1, TAGROUTE_LEN + 1) for _ in ref.tagroute_histories(ln))
+
+
 def nsval_configs() -> list[dict[str, Any]]:
     return [{"family": f, "cap": 2, "auto": True} for f in NS_FAMILIES]
 
@@ -1688,6 +1826,10 @@ def shards(tier: str, seed: int) -> list[dict[str, Any]]:  # noqa: ARG001
             specs.append({"kind": "partials", "cfg": cfg, "i": i, "n": npp})
     for cfg in globals_configs():
         specs.append({"kind": "globals", "cfg": cfg})
+    for cfg in tagroute_configs():
+        nt2 = 2 if cfg["family"] == "tag-fs" else 1
+        for i in range(nt2):
+            specs.append({"kind": "tagroute", "cfg": cfg, "i": i, "n": nt2})
     nr = 12 if tier == "quick" else 48
     for i in range(nr):
         specs.append({"kind": "random", "i": i, "n": nr})
@@ -1718,6 +1860,7 @@ def floors(tier: str) -> dict[str, int]:
             "partials_histories_done": 58_100,
             "ev:tag-load": 100_000,
             "globals_histories_done": 16_368,
+            "tagroute_histories_done": 25_248,
             "set:nsval_value_pairs": 110,
             "set:nsval_channels": 25,
             "reload_older_mtime": 5_000,
@@ -1749,6 +1892,7 @@ def floors(tier: str) -> dict[str, int]:
         "partials_histories_done": 594_485,
         "ev:tag-load": 1_000_000,
         "globals_histories_done": 16_368,
+        "tagroute_histories_done": 25_248,
         "set:nsval_value_pairs": 110,
         "set:nsval_channels": 25,
         "reload_older_mtime": 50_000,
@@ -1780,6 +1924,8 @@ def exhaustive(tier: str, merged: dict[str, Any]) -> bool:
     if merged["counters"].get("partials_histories_done", 0) != partials_expected(tier):
         return False
     if merged["counters"].get("globals_histories_done", 0) != globals_expected():
+        return False
+    if merged["counters"].get("tagroute_histories_done", 0) != tagroute_expected():
         return False
     return got == want and not merged.get("truncated") and not merged.get("failed")
 
@@ -1815,6 +1961,8 @@ def run_shard(spec: dict[str, Any], ctx: Ctx) -> None:
             _partials(h, spec, ctx)
         elif kind == "globals":
             _globals(h, spec, ctx)
+        elif kind == "tagroute":
+            _tagroute(h, spec, ctx)
         elif kind == "random":
             _random(h, spec, ctx)
         else:
@@ -1957,6 +2105,29 @@ def _globals(h: Harness, spec: dict[str, Any], ctx: Ctx) -> None:
                     "history": [ref.show_op(o, cfg["family"]) for o in last]})
 
 
+def _tagroute(h: Harness, spec: dict[str, Any], ctx: Ctx) -> None:
+    """docs/loading_templates.md 'Load context': a subclass that routes on the `tag`
+    keyword (and on a user keyword), cached vs its uncached counterpart."""
+    cfg = spec["cfg"]
+    ctx.seen("configs", cfg_id(cfg))
+    i, n = spec["i"], spec["n"]
+    idx = 0
+    last = None
+    for ln in range(1, TAGROUTE_LEN + 1):
+        for ops in ref.tagroute_histories(ln):
+            idx += 1
+            if idx % n != i:
+                continue
+            if idx & 255 == 0:
+                ctx.check_deadline()
+            _run_and_report(h, cfg, ops, ctx, "tagroute", only_last=True)
+            ctx.count("tagroute_histories_done")
+            last = ops
+    if last is not None and i == 0:
+        ctx.sample({"kind": "tagroute", "cfg": cfg_id(cfg),
+                    "history": [ref.show_op(o, cfg["family"]) for o in last]})
+
+
 def _nsval(h: Harness, spec: dict[str, Any], ctx: Ctx) -> None:
     """Namespace-value family on the tenant-aware loaders (see c14_lru.nsval_pairs)."""
     cfg = spec["cfg"]
@@ -1984,13 +2155,16 @@ def random_history(rng: random.Random, length: int, fam: str = "") -> list[Op]:
         return _random_ns_history(rng, length)
     if ref.is_p_family(fam):
         return _random_p_history(rng, length, fam == "p-ctx")
+    if ref.is_t_family(fam):
+        return _random_t_history(rng, length)
     ops: list[Op] = []
     n_names = rng.choice((2, 3, 3))
     for _ in range(length):
         r = rng.random()
         if r < 0.66:
             ops.append(Op("load", rng.randrange(n_names), rng.choice((0, 0, 1, 2)),
-                          rng.choice((0, 1, 1, 2, 3, 4)), rng.randrange(2), rng.randrange(2)))
+                          rng.choice((0, 1, 1, 2, 3, 4)), rng.randrange(2), rng.randrange(2),
+                          1 if rng.random() < 0.12 else 0))
             if not ops[-1].ns:
                 ops[-1] = ops[-1]._replace(via=0)
         elif r < 0.82:
@@ -2060,7 +2234,29 @@ def _random_p_history(rng: random.Random, length: int, with_ns: bool) -> list[Op
     return ops
 
 
-RANDOM_FAMILIES = (*FAMILIES, "fs-multi", *NS_FAMILIES, *P_FAMILIES)
+def _random_t_history(rng: random.Random, length: int) -> list[Op]:
+    """Random history over the tag-routing vocabulary."""
+    ops: list[Op] = []
+
+    def load() -> Op:
+        return Op("load", rng.randrange(2), 0, rng.choice((0, 1, 1, 3)), rng.randrange(2),
+                  rng.choice(ref.T_CHANNELS), 1 if rng.random() < 0.15 else 0)
+
+    for _ in range(length):
+        r = rng.random()
+        if r < 0.68:
+            ops.append(load())
+        elif r < 0.86:
+            ops.append(Op("modify", rng.randrange(6), 0, rng.choice((0, 0, 1, 2))))
+        elif r < 0.94:
+            ops.append(Op("delete", rng.randrange(6)))
+        else:
+            ops.append(Op("fail"))
+    ops.append(load())
+    return ops
+
+
+RANDOM_FAMILIES = (*FAMILIES, "fs-multi", *NS_FAMILIES, *P_FAMILIES, *T_FAMILIES)
 
 
 def _random(h: Harness, spec: dict[str, Any], ctx: Ctx) -> None:
@@ -2083,6 +2279,8 @@ def _random(h: Harness, spec: dict[str, Any], ctx: Ctx) -> None:
         }
         if ref.is_p_family(fam):
             cfg["site"] = 0  # the partial-loading runner uses the plain environment
+        if ref.is_t_family(fam):
+            cfg["nskey"] = rng.choice(("", "variant"))
         ctx.seen("configs", cfg_id({"family": fam, "cap": cfg["cap"], "auto": cfg["auto"]}))
         ctx.seen("random_configs", cfg_id(cfg))
         ops = random_history(rng, rng.randrange(5, 40), fam)
